@@ -1427,13 +1427,14 @@ spec fn dag_dom_same(a: &GraphType, b: &GraphType) -> bool {
 
 proof fn lemma_dag_dom_range(a: &GraphType, b: &GraphType, n: nat)
     requires dag_dom_same(a, b), edges_in_range(a, n),
-    ensures edges_in_range(b, n),
+    ensures edges_in_range(b, n), a.acyclic() == b.acyclic(),
         forall|x: usize, y: usize| #![trigger b.has_edge(x, y)] b.has_edge(x, y) == a.has_edge(x, y),
         forall|x: usize, d: Direction, y: usize| #![trigger b.is_nbr(x, d, y)] b.is_nbr(x, d, y) == a.is_nbr(x, d, y),
 {
     assert forall|x: usize, y: usize| #![trigger b.has_edge(x, y)] b.has_edge(x, y) == a.has_edge(x, y) by {
         assert(b.edges().dom().contains((x, y)) == a.edges().dom().contains((x, y)));
     }
+    axiom_rank_dom(a, b);
 }
 
 pub broadcast proof fn lemma_map_insert_existing_dom<K, V>(m: Map<K, V>, k: K, v: V)
